@@ -1,5 +1,303 @@
+(* C20 — property theorems only.  Each is closed by [exact] of a lemma of ProofsImage.v /
+   ProofsTrace.v and followed by Print Assumptions; non-vacuity examples at the end.
+
+   Vocabulary.  Model.v: fmt_of i = the template arguments of the instantiation i of writeImage
+   (PPM, PGM, PFM1 = writePFM<float>, PFM3 = <vec3f>, PFM3a = <vec3fa>, PFM4 = <vec4f>);
+   img_reads sel f w h = the indices (in units of COMP_T) the loop nest reads, in order;
+   writeImage f w h inp = the file bytes, or WOob i when index i lies outside inp;
+   record / record_all = ThreadEventList recording into chunks; emit_chunk(s) / log_objs = the
+   objects saveLog prints; saveLog = its text (with the final "seek back, overwrite").
+   Spec.v: read_image = an independent reader of the five file formats; expected = the selected
+   channels of the input in file order; json_array / json_object = a JSON recogniser (pushdown
+   automaton); balanced / no_stray_end = begin/end nesting; events_of_tid = the events of one
+   thread among the printed objects; text_ok / ev_ok / input_ok = texts without quote, backslash
+   or control characters, cpuUtilization printed as a number. *)
+From Coq Require Import String.   (* first: only for the string literals of the examples; List's names win below *)
 From Common Require Import Prelude.
 From C20 Require Import Model Spec ProofsImage ProofsTrace.
 Local Open Scope N_scope.
-Example pfm_float_old_example : writeImage_old (fmt_of PFM1) 2 2 [1;2;3;4] = WOob 4.
+
+(* ================================================================== images *)
+
+(* every index read is inside the w*h pixels, for every size and each of the six instantiations *)
+Theorem image_reads_in_bounds : forall i w h idx,
+  In idx (img_reads comp_sel (fmt_of i) w h) -> idx < w * h * f_pixcomp (fmt_of i).
+Proof. exact ProofsImage.reads_in_bounds. Qed.
+Print Assumptions image_reads_in_bounds.
+
+(* so on a buffer of exactly w*h pixels the writer never reports an out-of-buffer read *)
+Theorem image_never_leaves_buffer : forall i w h inp idx,
+  length inp = N.to_nat (w * h * f_pixcomp (fmt_of i)) -> writeImage (fmt_of i) w h inp <> WOob idx.
+Proof. exact ProofsImage.writeImage_no_oob. Qed.
+Print Assumptions image_never_leaves_buffer.
+
+(* the number of components written is w*h*N_COMP *)
+Theorem image_read_count : forall sel f w h,
+  length (img_reads sel f w h) = N.to_nat (w * h * f_ncomp f).
+Proof. exact ProofsImage.length_img_reads. Qed.
+Print Assumptions image_read_count.
+
+(* for each format: the independent reader parses the header of the written file to (w, h)
+   and decodes the payload to the selected channels of the input — file row y is input row
+   h-1-y for PPM/PGM and row y for the PFM variants (definition of [expected]) *)
+Theorem image_decode : forall i w h inp,
+  length inp = N.to_nat (w * h * f_pixcomp (fmt_of i)) -> comps_fit i inp ->
+  exists bytes,
+    writeImage (fmt_of i) w h inp = WBytes bytes /\
+    read_image (fmt_of i) bytes = Some (w, h, expected i w h inp).
+Proof. exact ProofsImage.image_decode. Qed.
+Print Assumptions image_decode.
+
+(* the header alone: "<magic>\n<w> <h>\n<scale>\n" parses back to (w, h) for all w, h *)
+Theorem image_header_roundtrip : forall f w h rest,
+  parse_header (f_magic f) (f_scale f) (header f w h ++ rest) = Some (w, h, rest).
+Proof. exact ProofsImage.parse_header_header. Qed.
+Print Assumptions image_header_roundtrip.
+
+(* the decoded content has one entry per pixel and selected channel *)
+Theorem image_decoded_size : forall i w h inp,
+  length (expected i w h inp) = N.to_nat (w * h * N.of_nat (length (selected i))).
+Proof. exact ProofsImage.length_expected. Qed.
+Print Assumptions image_decoded_size.
+
+(* the index expression before the repair (N_COMP == 1 ? 3 : c) leaves the buffer of
+   writePFM<float>: the finding, kept as a refutation *)
+Theorem pfm_float_old_refuted :
+  exists w h inp idx,
+    length inp = N.to_nat (w * h * f_pixcomp (fmt_of PFM1)) /\
+    In idx (img_reads comp_sel_old (fmt_of PFM1) w h) /\
+    w * h * f_pixcomp (fmt_of PFM1) <= idx /\
+    writeImage_old (fmt_of PFM1) w h inp = WOob idx.
+Proof. exact ProofsImage.pfm_float_old_oob. Qed.
+Print Assumptions pfm_float_old_refuted.
+
+(* ================================================================== trace: chunks *)
+
+(* the concatenation of the chunks is the recorded sequence; every chunk holds between 1 and
+   8192 events; all chunks but the last are full *)
+Theorem chunks_concat : forall evs,
+  concat (record_all evs) = evs /\
+  Forall (fun c => (1 <= length c)%nat /\ N.of_nat (length c) <= chunk_size) (record_all evs) /\
+  Forall (fun c => N.of_nat (length c) = chunk_size) (removelast (record_all evs)).
+Proof. exact ProofsTrace.chunks_concat. Qed.
+Print Assumptions chunks_concat.
+
+(* a recording step pushes onto a vector whose size is below the reserved capacity (or onto a
+   fresh one) and leaves the other chunks alone: no chunk grows past 8192, events never move *)
+Theorem chunks_never_reallocate : forall evs e,
+  exists r c, record (record_all evs) e = r ++ [c ++ [e]] /\
+              N.of_nat (length c) < chunk_size /\
+              (record_all evs = r ++ [c] \/ (record_all evs = r /\ c = [])).
+Proof. exact ProofsTrace.record_no_realloc. Qed.
+Print Assumptions chunks_never_reallocate.
+
+(* ================================================================== trace: saveLog text *)
+
+(* the output is "[" ++ intercalate "," objs ++ "]", every obj is one JSON object and the whole
+   is accepted by the JSON-array recogniser — any number of threads and events, the empty log
+   included *)
+Theorem savelog_wellformed : forall pname pid l,
+  (forall p, pname = Some p -> text_ok p) -> Forall input_ok l ->
+  let objs := log_objs pname pid (threads_of l) in
+  saveLog pname pid (threads_of l) = [91] ++ intercalate [44] (map render objs) ++ [93] /\
+  Forall (fun o => json_object (render o) = true) objs /\
+  json_array (saveLog pname pid (threads_of l)) = true.
+Proof. exact ProofsTrace.savelog_wellformed_recorded. Qed.
+Print Assumptions savelog_wellformed.
+
+(* the same for arbitrary chunk lists (not only those the recorder builds) *)
+Theorem savelog_wellformed_any_chunks : forall pname pid ths,
+  (forall p, pname = Some p -> text_ok p) -> Forall thread_ok ths ->
+  let objs := log_objs pname pid ths in
+  saveLog pname pid ths = [91] ++ intercalate [44] (map render objs) ++ [93] /\
+  Forall (fun o => json_object (render o) = true) objs /\
+  json_array (saveLog pname pid ths) = true.
+Proof. exact ProofsTrace.savelog_wellformed. Qed.
+Print Assumptions savelog_wellformed_any_chunks.
+
+(* the shape alone needs no hypothesis *)
+Theorem savelog_shape : forall pname pid ths,
+  saveLog pname pid ths = [91] ++ intercalate [44] (map render (log_objs pname pid ths)) ++ [93].
+Proof. exact ProofsTrace.saveLog_shape. Qed.
+Print Assumptions savelog_shape.
+
+(* the writer before the repair (unconditional seek back) on the empty log: the file is "]" *)
+Theorem savelog_empty_old_refuted : forall pid,
+  saveLog_old None pid [] = [93] /\ json_array (saveLog_old None pid []) = false.
+Proof. exact ProofsTrace.saveLog_old_empty. Qed.
+Print Assumptions savelog_empty_old_refuted.
+
+(* ================================================================== trace: content *)
+
+(* for every recording thread (the k-th registered one is printed with tid k) the begin, end,
+   marker and counter events in the file are exactly the recorded ones, in recording order —
+   provided no thread recorded an END without an open BEGIN *)
+Theorem savelog_complete : forall pname pid (l : list (str * list tev)) k nm evs,
+  Forall (fun p => no_stray_end 0 (snd p) = true) l ->
+  nth_error l k = Some (nm, evs) ->
+  events_of_tid (N.of_nat k) (log_objs pname pid (threads_of l)) = evs.
+Proof. exact ProofsTrace.savelog_complete. Qed.
+Print Assumptions savelog_complete.
+
+(* each END is matched with the innermost open BEGIN: if only properly nested events lie
+   between the BEGIN b and the END e, then e is processed against b (the builtin utilisation
+   counter of a long interval carries b's time stamp), across chunk boundaries, and what was
+   open before b stays open for the events after e *)
+Theorem savelog_nesting : forall pid tid pre b m e rest,
+  is_begin b = true -> is_end e = true -> balanced m ->
+  no_stray_end 0 (pre ++ b :: m ++ e :: rest) = true ->
+  emit_chunks pid tid (record_all (pre ++ b :: m ++ e :: rest)) [] =
+    fst (emit_chunk pid tid pre []) ++
+    JEvent pid tid b :: fst (emit_chunk pid tid m []) ++ JEvent pid tid e :: util_of pid tid b e ++
+    fst (emit_chunk pid tid rest (snd (emit_chunk pid tid pre []))).
+Proof. exact ProofsTrace.savelog_nesting. Qed.
+Print Assumptions savelog_nesting.
+
+(* the same inside one chunk with an arbitrary stack of open begins *)
+Theorem nesting_innermost : forall pid tid b m e rest st,
+  is_begin b = true -> is_end e = true -> balanced m ->
+  fst (emit_chunk pid tid (b :: m ++ e :: rest) st) =
+    JEvent pid tid b :: fst (emit_chunk pid tid m []) ++ JEvent pid tid e :: util_of pid tid b e
+    ++ fst (emit_chunk pid tid rest st) /\
+  snd (emit_chunk pid tid (b :: m ++ e :: rest) st) = snd (emit_chunk pid tid rest st).
+Proof. exact ProofsTrace.nesting_pair. Qed.
+Print Assumptions nesting_innermost.
+
+(* a properly nested recording has no stray END and leaves no BEGIN open *)
+Theorem balanced_thread_closed : forall pid tid evs,
+  balanced evs -> no_stray_end 0 evs = true /\ snd (emit_chunk pid tid evs []) = [].
+Proof. exact ProofsTrace.balanced_closed. Qed.
+Print Assumptions balanced_thread_closed.
+
+(* with no stray END the chunk boundaries are invisible in the printed objects *)
+Theorem chunk_boundaries_invisible : forall pid tid cs st,
+  no_stray_end (length st) (concat cs) = true ->
+  emit_chunks pid tid cs st = fst (emit_chunk pid tid (concat cs) st).
+Proof. exact ProofsTrace.emit_chunks_flat. Qed.
+Print Assumptions chunk_boundaries_invisible.
+
+(* ================================================================== non-vacuity *)
+Definition S_ (x : String.string) : str := Lit.s x.
+Arguments S_ x%string_scope.
+
+(* a 2x2 RGBA image: PPM takes R,G,B bottom-up, PGM the alpha byte bottom-up *)
+Definition img22 : list N := [10;11;12;13; 20;21;22;23; 30;31;32;33; 40;41;42;43].
+
+Example ex_ppm :
+  exists bytes, writeImage (fmt_of PPM) 2 2 img22 = WBytes bytes /\
+    read_image (fmt_of PPM) bytes = Some (2, 2, [30;31;32; 40;41;42; 10;11;12; 20;21;22]) /\
+    expected PPM 2 2 img22 = [30;31;32; 40;41;42; 10;11;12; 20;21;22] /\
+    firstn 11 bytes = S_ "P6" ++ [10] ++ S_ "2 2" ++ [10] ++ S_ "255" ++ [10].
+Proof. eexists. vm_compute. repeat split; reflexivity. Qed.
+
+Example ex_pgm :
+  exists bytes, writeImage (fmt_of PGM) 2 2 img22 = WBytes bytes /\
+    read_image (fmt_of PGM) bytes = Some (2, 2, [33; 43; 13; 23]).
+Proof. eexists. vm_compute. split; reflexivity. Qed.
+
+(* writePFM<float> 3x2 with 32-bit patterns: rows as given, four little-endian bytes each *)
+Example ex_pfm1 :
+  let inp := [1065353216; 1073741824; 1077936128; 1082130432; 1084227584; 1086324736] in
+  length inp = N.to_nat (3 * 2 * f_pixcomp (fmt_of PFM1)) /\ comps_fit PFM1 inp /\
+  exists bytes, writeImage (fmt_of PFM1) 3 2 inp = WBytes bytes /\
+    read_image (fmt_of PFM1) bytes = Some (3, 2, inp) /\ length bytes = 37%nat.
+Proof.
+  cbv zeta. split; [reflexivity|]. split.
+  - unfold comps_fit. repeat constructor.
+  - eexists. vm_compute. repeat split; reflexivity.
+Qed.
+
+(* vec3fa: the fourth (padding) component of each pixel is skipped; a one-column image *)
+Example ex_pfm3a :
+  exists bytes, writeImage (fmt_of PFM3a) 1 2 [1;2;3;99; 4;5;6;99] = WBytes bytes /\
+    read_image (fmt_of PFM3a) bytes = Some (1, 2, [1;2;3;4;5;6]).
+Proof. eexists. vm_compute. split; reflexivity. Qed.
+
+(* the reader is not a constant: a truncated file and a wrong magic are rejected *)
+Example ex_reader_rejects :
+  read_image (fmt_of PGM) (S_ "P5" ++ [10] ++ S_ "2 2" ++ [10] ++ S_ "255" ++ [10; 1; 2; 3; 10]) = None /\
+  read_image (fmt_of PGM) (S_ "P6" ++ [10] ++ S_ "1 1" ++ [10] ++ S_ "255" ++ [10; 1; 10]) = None /\
+  read_image (fmt_of PGM) (S_ "P5" ++ [10] ++ S_ "1 1" ++ [10] ++ S_ "255" ++ [10; 7; 10]) = Some (1, 1, [7]).
+Proof. vm_compute. repeat split; reflexivity. Qed.
+
+(* the out-of-buffer outcome exists: a buffer one component short *)
+Example ex_oob_detected : writeImage (fmt_of PFM1) 2 2 [1; 2; 3] = WOob 3.
 Proof. vm_compute. reflexivity. Qed.
+
+(* events *)
+Definition evB (n : String.string) (t : N) : tev := mkEv KBegin (S_ n) (Some (S_ "cat")) 0 t [].
+Definition evE (t : N) : tev := mkEv KEnd [] None 0 t (S_ "0.5").
+Definition evM (n : String.string) (t : N) : tev := mkEv KMarker (S_ n) None 0 t [].
+Definition evC (n : String.string) (v t : N) : tev := mkEv KCounter (S_ n) None v t [].
+Arguments evB n%string_scope t%N_scope.
+Arguments evM n%string_scope t%N_scope.
+Arguments evC n%string_scope v%N_scope t%N_scope.
+
+(* exactly one chunk, and one event more *)
+Example ex_chunk_boundary :
+  map (fun c => N.of_nat (length c)) (record_all (repeat (evM "m" 5) (N.to_nat 8192))) = [8192] /\
+  map (fun c => N.of_nat (length c)) (record_all (repeat (evM "m" 5) (N.to_nat 8193))) = [8192; 1] /\
+  record_all [] = [].
+Proof. vm_compute. repeat split; reflexivity. Qed.
+
+(* a log with a process name and two threads: nested intervals (the inner one long), a marker,
+   a counter; and a thread that recorded nothing *)
+Definition thr0 : list tev :=
+  [evB "outer" 1000000; evM "mark" 1001000; evB "inner" 1002000; evE 1500000; evC "n" 42 1600000; evE 1700000].
+Definition log0 := [(S_ "main", thr0); (S_ "idle", []); (S_ "w1", [evM "x" 7000])].
+
+Example ex_inputs_ok : Forall input_ok log0 /\ Forall (fun p => no_stray_end 0 (snd p) = true) log0.
+Proof.
+  split.
+  - unfold log0, thr0, input_ok. repeat constructor; try (intros c E; inversion E; reflexivity); discriminate.
+  - repeat constructor.
+Qed.
+
+Example ex_savelog :
+  json_array (saveLog (Some (S_ "app")) 77 (threads_of log0)) = true /\
+  events_of_tid 0 (log_objs (Some (S_ "app")) 77 (threads_of log0)) = thr0 /\
+  events_of_tid 2 (log_objs (Some (S_ "app")) 77 (threads_of log0)) = [evM "x" 7000] /\
+  length (log_objs (Some (S_ "app")) 77 (threads_of log0)) = 13%nat.
+Proof. vm_compute. repeat split; reflexivity. Qed.
+
+(* innermost matching, visibly: the inner interval (498 us) gets a utilisation counter stamped with
+   the time of "inner" (1002 us), the outer one (700 us) one stamped with the time of "outer" (1000 us) *)
+Example ex_nesting :
+  emit_chunks 77 0 (record_all thr0) [] =
+  [JEvent 77 0 (evB "outer" 1000000); JEvent 77 0 (evM "mark" 1001000); JEvent 77 0 (evB "inner" 1002000);
+   JEvent 77 0 (evE 1500000); JUtil 77 0 1002 (S_ "0.5");
+   JEvent 77 0 (evC "n" 42 1600000);
+   JEvent 77 0 (evE 1700000); JUtil 77 0 1000 (S_ "0.5")].
+Proof. vm_compute. reflexivity. Qed.
+
+Example ex_balanced : balanced thr0.
+Proof.
+  unfold thr0.
+  apply (bal_pair (evB "outer" 1000000)
+                  [evM "mark" 1001000; evB "inner" 1002000; evE 1500000; evC "n" 42 1600000]
+                  (evE 1700000) []); try reflexivity; [|constructor].
+  apply bal_other; try reflexivity.
+  apply (bal_pair (evB "inner" 1002000) [] (evE 1500000) [evC "n" 42 1600000]); try reflexivity; [constructor|].
+  apply bal_other; try reflexivity. constructor.
+Qed.
+
+(* the empty log and a log of threads without events *)
+Example ex_empty_logs :
+  saveLog None 1 [] = S_ "[]" /\ json_array (saveLog None 1 []) = true /\
+  json_array (saveLog (Some (S_ "p")) 1 (threads_of [(S_ "t", [])])) = true.
+Proof. vm_compute. repeat split; reflexivity. Qed.
+
+(* the recogniser is not constantly true *)
+Example ex_recogniser_rejects :
+  json_array (S_ "]") = false /\ json_array (S_ "[{""a"":1},]") = false /\
+  json_array (S_ "[{""a"":1}{""b"":2}]") = false /\ json_array (S_ "[{""a"":1 ""b"":2}]") = false /\
+  json_array (S_ "[{""a"":1},{""b"":{""c"":-2.5e3}}]") = true /\
+  json_array (S_ "[{""a"":""x""y""}]") = false.
+Proof. vm_compute. repeat split; reflexivity. Qed.
+
+(* a stray END makes saveLog drop the rest of the chunk: why completeness asks for no_stray_end *)
+Example ex_stray_end :
+  let evs := [evM "a" 1; evE 2; evM "dropped" 3] in
+  no_stray_end 0 evs = false /\
+  events_of_tid 0 (log_objs None 1 (threads_of [(S_ "t", evs)])) = [evM "a" 1].
+Proof. vm_compute. split; reflexivity. Qed.
